@@ -163,6 +163,8 @@ pub struct Ctx {
     pub assumptions: Mutex<Vec<String>>,
     /// label appended to the check name in the per-sub-check statistics
     pub label: Mutex<String>,
+    /// false: verdict only (cross-check builds must not overwrite the evidence file)
+    pub write_evidence: bool,
 }
 
 fn splitmix(mut z: u64) -> u64 {
@@ -284,6 +286,7 @@ impl Ctx {
             rule: Mutex::new(String::new()),
             assumptions: Mutex::new(Vec::new()),
             label: Mutex::new(String::new()),
+            write_evidence: true,
         }
     }
     pub fn thorough(&self) -> bool {
@@ -720,6 +723,22 @@ impl Ctx {
             "wall_s": self.start.elapsed().as_secs_f64(),
             "violations": ev.violations.len(),
         });
+        if let Ok(fz) = std::env::var("VERIF_FUZZ_STATS") {
+            if let Ok(v) = serde_json::from_str::<Value>(&fz) {
+                coverage["libfuzzer_campaign"] = v;
+            }
+        }
+        let doc = if coverage.get("libfuzzer_campaign").is_some() {
+            let mut d = doc;
+            d["coverage"] = coverage.clone();
+            d
+        } else {
+            doc
+        };
+        if !self.write_evidence {
+            println!("{} (cross-check build, evidence not written): cases={} violations={}", self.id, ev.cases, ev.violations.len());
+            return if ev.violations.is_empty() { 0 } else { 1 };
+        }
         let dir = self.root.join("evidence");
         let _ = std::fs::create_dir_all(&dir);
         let path = dir.join(format!("{}.json", self.id));
